@@ -663,3 +663,7 @@ TASKS.append(FunctionTask(CHECK_INPUT, clauses=["finite non-negative amplitudes:
 # process(): the driver registered for the settings' processing method, called once with the caller's recordings (the caller's list, hence its order) and settings
 import contracts.dispatch as _DISPATCH
 TASKS += _DISPATCH.PROCESS_TASKS
+
+# the constructors of the result objects (contracts/ctor_hvsr.py): row i of a result is curve i of what the driver hands over
+import contracts.ctor_hvsr as _CTOR
+TASKS += [t for t in _CTOR.TASKS if "HvsrTraditional.__init__" in t.label]
